@@ -128,7 +128,7 @@ class Ctx(object):
         t0 = time.time()
         if self.fresh_mode:
             sv = z3.Solver()
-            sv.set('timeout', int(os.environ.get('PATHSYM_Z3_TIMEOUT_MS', '60000')) * 5)
+            sv.set('timeout', int(os.environ.get('PATHSYM_Z3_TIMEOUT_MS', '60000')) * 15)
             for a in self.asserted:
                 sv.add(a)
             for a in extra:
@@ -632,9 +632,14 @@ class PathResult(object):
         self.tags = ()
 
 
+PATH_START_HOOKS = []
+
+
 def run_path(fn, prefix, model=None):
     """Execute fn() once under the decision prefix.  Returns (PathResult, pending alternatives)."""
     global _CTX
+    for hook in PATH_START_HOOKS:
+        hook()
     c = Ctx(prefix, model)
     _CTX = c
     res = PathResult()
